@@ -18,8 +18,8 @@ import (
 //       function does not understand must be an error (the copy is kept), not an empty document.
 
 func c21SyncExtra(c *Ctx, p *Prog, pk *packages.Package) {
-	info := pk.TypesInfo
-	const r1, r2 = "open-replaces-text", "change-result-is-text"
+	_ = pk.TypesInfo
+	const r1 = "open-replaces-text"
 	if fd := p.MustFunc(r1, pk, "LSPServer.DidOpen"); fd != nil {
 		found, topLevel := false, false
 		for _, s := range fd.Body.List {
@@ -42,18 +42,61 @@ func c21SyncExtra(c *Ctx, p *Prog, pk *packages.Package) {
 		c.Check(found && topLevel, r1, "LSPServer.DidOpen", p.Pos(fd.Pos()), "fileMap[path] = params.TextDocument.Text, unconditionally",
 			map[bool]string{true: "DidOpen stores the opened text only under a condition: when it is skipped the server keeps an older text for the document and applies the client's later incremental changes to it", false: "DidOpen does not store the opened text into the server's copy"}[found])
 	}
-	if fd := p.MustFunc(r2, pk, "LSPServer.changedText"); fd != nil {
+}
+
+// c21ChangeResult: change-result-is-text over the functions that produce the text DidChange stores (the callees of
+// textProducerCalls and the package functions they return through, `return s.applyIncrementalChanges(uri, changes)`).
+func c21ChangeResult(c *Ctx, p *Prog, pk *packages.Package) {
+	const r2 = "change-result-is-text"
+	info := pk.TypesInfo
+	var work []*ast.FuncDecl
+	seen := map[*ast.FuncDecl]bool{}
+	add := func(name string) {
+		if fd := FuncDecl(pk, name); fd != nil && fd.Body != nil && !seen[fd] {
+			seen[fd] = true
+			work = append(work, fd)
+		}
+	}
+	for call := range textProducerCalls {
+		if f := call.Call.StaticCallee(); f != nil && f.Pkg != nil && f.Pkg.Pkg == pk.Types {
+			name := f.Name()
+			if recv := f.Signature.Recv(); recv != nil {
+				name = namedTypeName(recv.Type()) + "." + name
+			}
+			add(name)
+		}
+	}
+	n := 0
+	for len(work) > 0 {
+		fd := work[0]
+		work = work[1:]
 		var bad []string
-		n := 0
+		nRet := 0
 		ast.Inspect(fd.Body, func(nd ast.Node) bool {
 			if _, isLit := nd.(*ast.FuncLit); isLit {
 				return false
 			}
 			rs, ok := nd.(*ast.ReturnStmt)
-			if !ok || len(rs.Results) != 2 {
+			if !ok {
 				return true
 			}
-			n++
+			if len(rs.Results) == 1 {
+				// return through another function of the package
+				if call, ok := ast.Unparen(rs.Results[0]).(*ast.CallExpr); ok {
+					if fn := CalleeOf(info, call); fn != nil && fn.Pkg() == pk.Types {
+						name := fn.Name()
+						if sig, ok := fn.Type().(*types.Signature); ok && sig.Recv() != nil {
+							name = namedTypeName(sig.Recv().Type()) + "." + name
+						}
+						add(name)
+					}
+				}
+				return true
+			}
+			if len(rs.Results) != 2 {
+				return true
+			}
+			nRet++
 			errNil := false
 			if tv, ok := info.Types[rs.Results[1]]; ok && tv.IsNil() {
 				errNil = true
@@ -63,7 +106,9 @@ func c21SyncExtra(c *Ctx, p *Prog, pk *packages.Package) {
 			}
 			return true
 		})
-		c.Check(len(bad) == 0 && n > 0, r2, "LSPServer.changedText", p.Pos(fd.Pos()), "no `return nil, nil`",
-			"changedText returns (nil, nil) at "+strings.Join(bad, ", ")+": DidChange stores the result as the document's new text when the error is nil, so the server's copy becomes empty and later incremental changes are applied to the empty text")
+		n++
+		c.Check(len(bad) == 0, r2, declName(fd), p.Pos(fd.Pos()), "no `return nil, nil`",
+			declName(fd)+" returns (nil, nil) at "+strings.Join(bad, ", ")+": DidChange stores the result as the document's new text when the error is nil, so the server's copy becomes empty and later incremental changes are applied to the empty text")
 	}
+	c.Min(r2, "functions that produce the stored text", n, 1)
 }
